@@ -141,6 +141,25 @@ fn containers<T: Serialize + DeserializeOwned + PartialEq + Debug + Clone>(vals:
             mm.insert("outer".to_string(), inner);
             roundtrip(&mm, &format!("BTreeMap<String,BTreeMap<i64,{}>>", ty), acc, l);
             roundtrip(&En::New(En::Tup(v.clone(), w.clone())), &format!("En<En<{}>>", ty), acc, l);
+            // payloads that are absent, empty or unit-like, in every variant shape and wrapper
+            roundtrip(&En::New(None::<T>), &format!("En<Option<{}>>::New(None)", ty), acc, l);
+            roundtrip(&En::New(Some(v.clone())), &format!("En<Option<{}>>::New(Some)", ty), acc, l);
+            roundtrip(&En::Tup(None, Some(v.clone())), &format!("En<Option<{}>>::Tup(None,Some)", ty), acc, l);
+            roundtrip(&En::Tup(None::<T>, None), &format!("En<Option<{}>>::Tup(None,None)", ty), acc, l);
+            roundtrip(&En::Struct { a: None::<T> }, &format!("En<Option<{}>>::Struct(None)", ty), acc, l);
+            roundtrip(&En::New(Vec::<T>::new()), &format!("En<Vec<{}>>::New(empty)", ty), acc, l);
+            roundtrip(&En::New(BTreeMap::<String, T>::new()), &format!("En<BTreeMap<String,{}>>::New(empty)", ty), acc, l);
+            roundtrip(&En::New(Field { a: None::<T>, b: Some(w.clone()) }), &format!("En<Field<Option<{}>>>", ty), acc, l);
+            roundtrip(&Newtype(None::<T>), &format!("Newtype<Option<{}>>(None)", ty), acc, l);
+            roundtrip(&Tup2(None::<T>, None), &format!("Tup2<Option<{}>>(None,None)", ty), acc, l);
+            roundtrip(&vec![None::<T>, None], &format!("Vec<Option<{}>>(None,None)", ty), acc, l);
+            roundtrip(&(None::<T>,), &format!("(Option<{}>,)", ty), acc, l);
+            roundtrip(&vec![En::New(None::<T>), En::Unit, En::New(Some(v.clone()))], &format!("Vec<En<Option<{}>>>", ty), acc, l);
+            roundtrip(&Some(En::New(None::<T>)), &format!("Option<En<Option<{}>>>", ty), acc, l);
+            let mut me = BTreeMap::new();
+            me.insert("k".to_string(), En::New(None::<T>));
+            me.insert("u".to_string(), En::Unit);
+            roundtrip(&me, &format!("BTreeMap<String,En<Option<{}>>>", ty), acc, l);
         }
     }
 }
@@ -174,6 +193,11 @@ fn typed_roundtrips(acc: &Acc) {
     roundtrip(&vec![(), ()], "Vec<()>", acc, l);
     roundtrip(&Field { a: (), b: () }, "Field<()>", acc, l);
     roundtrip(&En::<()>::Unit, "En<()>::Unit", acc, l);
+    roundtrip(&En::New(()), "En<()>::New", acc, l);
+    roundtrip(&En::New(UnitS), "En<UnitS>::New", acc, l);
+    roundtrip(&En::Tup((), ()), "En<()>::Tup", acc, l);
+    roundtrip(&En::Struct { a: () }, "En<()>::Struct", acc, l);
+    roundtrip(&Newtype(()), "Newtype<()>", acc, l);
     // -0.0 and NaN by bit pattern
     for f in [-0.0f64, f64::NAN] {
         l.evals += 1;
@@ -681,7 +705,7 @@ pub fn main(args: Args) -> i32 {
             level: "exploration",
             tier: args.tier,
             seed: args.seed,
-            rule: format!("typed round trip: 14 leaf types (bool, i8..i64, u8..u64, f32, f64, char, String, byte string) with per-leaf edge alphabets x 20 container shapes (Option, Vec, tuples, array, maps keyed by String/i64/u64/bool, newtype/tuple/field structs, all four enum variant shapes) and 14 depth-2 shapes for 5 representative leaves, plus unit-likes; embedded Values: every value of the edge alphabet (safe strings, undefined, none, 128-bit ints, NaN, bytes, lists, tuples, lazy iterables, maps, plain objects, invalid) through 15 embedding routes (7 of them through host Serialize impls that run a nested conversion before, around or after the value) must come back as the very same value (kind, flags, object identity), and a failing serialisation must leave no thread-local residue; every history of up to {} conversions out of {{plain, nested, failing, nested failing, panicking after a nested one, JSON serialisation outside}} must leave the conversion flag clean after every step; tojson/JSON auto-escape: all strings of length <= {} over a 16-character alphabet (quotes, backslash, slash, < > & ', controls, DEL, U+2028/9, non-BMP) bare, safe, as map key and in a list, all edge values bare / nested / as map key, through tojson in .txt and .html templates, tojson(indent) and JSON auto-escaping; output parsed by serde_json must equal the expected JSON value and tojson output must contain none of < > & '. distinct non-trivial = distinct (type,value) round trips + (value,route) pairs", args.tier.pick(3, 5), args.tier.pick(3, 4)),
+            rule: format!("typed round trip: 14 leaf types (bool, i8..i64, u8..u64, f32, f64, char, String, byte string) with per-leaf edge alphabets x 20 container shapes (Option, Vec, tuples, array, maps keyed by String/i64/u64/bool, newtype/tuple/field structs, all four enum variant shapes) and 29 depth-2 shapes for 5 representative leaves (incl. absent, empty and unit-like payloads in every enum variant shape), plus unit-likes; embedded Values: every value of the edge alphabet (safe strings, undefined, none, 128-bit ints, NaN, bytes, lists, tuples, lazy iterables, maps, plain objects, invalid) through 15 embedding routes (7 of them through host Serialize impls that run a nested conversion before, around or after the value) must come back as the very same value (kind, flags, object identity), and a failing serialisation must leave no thread-local residue; every history of up to {} conversions out of {{plain, nested, failing, nested failing, panicking after a nested one, JSON serialisation outside}} must leave the conversion flag clean after every step; tojson/JSON auto-escape: all strings of length <= {} over a 16-character alphabet (quotes, backslash, slash, < > & ', controls, DEL, U+2028/9, non-BMP) bare, safe, as map key and in a list, all edge values bare / nested / as map key, through tojson in .txt and .html templates, tojson(indent) and JSON auto-escaping; output parsed by serde_json must equal the expected JSON value and tojson output must contain none of < > & '. distinct non-trivial = distinct (type,value) round trips + (value,route) pairs", args.tier.pick(3, 5), args.tier.pick(3, 4)),
             exhaustive: true,
             bound: json!({"json_chars": JCHARS.iter().map(|c| format!("{:?}", c)).collect::<Vec<_>>()}),
             assumptions: vec![
